@@ -27,6 +27,9 @@ CHECKS["C07"] = dict(engine="symx", technique="symbolic execution (symx/z3) of t
 CHECKS["C13"] = dict(engine="symx", technique="symbolic execution (symx/z3) of the real EndpointsEmitter.emit, MocksEmitter.emit/_group_operations_by_tag and ClientVisitor.visit with symbolic tags; routing and naming half of the property",
    text="For 1-3 operations in five tag-assignment shapes with tags up to 2 (quick) / 3 (thorough) symbolic characters over 'aAbB1-_ .é中', z3 decides every path: each endpoint client has exactly one mock with the same (class, module) and the same operation set, mock files never overwrite each other, and MockAPIClient is assembled from exactly APIClient's tag tuples. Parameter-by-parameter signature equality of client / Protocol / mock is NOT decided (no symbolic input to range over; stated in DESIGN.md).",
    note="Partial claim: routing and naming only. Rendering, file I/O and pathlib are recording stubs; the Protocol is emitted from the same operation list as its client by construction of emit_endpoint_client_class.", ref="§2 C13")
+CHECKS["C04"] = dict(engine="symx", technique="symbolic execution (symx/z3) of endpoint methods emitted by the real generator, called with symbolic arguments against a recording transport; plus two string lemmas over all names decided on the real sanitiser / URL builder",
+   text="For 11 operation shapes (path/query/header/cookie parameters incl. path-level ones and names needing sanitisation, JSON model / JSON array / form / multipart / octet-stream bodies, two request content types; GET/POST/PUT/PATCH/DELETE) every argument is symbolic (strings of length 1 quick / <=2 thorough over 'a/ %&=é{', ints, bools, list and model leaves) and the None-ness of every optional argument is solver-decided: exactly one request, method, URL with the path values substituted, every supplied query/header/cookie argument under its original name with the caller's value, None ones absent, body keyword and content equal to an independent reference. Lemmas for all strings up to 3/5 (sanitize_method_name idempotent) and all well-formed path templates up to 4/6 characters (URL variables == declared path arguments).",
+   note="Trusts z3, the symx instrumentation (each path witness re-run on the uninstrumented generated package), the OPS table in props/c04.py as the independent statement of each operation, and that the 11 templates represent the request shapes. httpx's own URL/query encoding and Content-Type selection lie below the recording transport: outside the claim.", ref="§2 C04")
 NA = {
  "C01": "not applicable to solver-based checking: the observation is compile()/import of a whole emitted file tree for a whole symbolic document; no kernel small enough to encode (identifier and lexical kernels are decided under C20/C15)",
  "C09": "not applicable: quantifies over hash seeds, processes, clocks and existing file trees; the deciding observation is byte equality of directory trees - nothing for a solver to decide",
